@@ -25,6 +25,7 @@ import (
 	"runtime"
 	"strings"
 
+	nc "verif/gen/nativecalls"
 	"verif/kit"
 
 	"github.com/open2b/scriggo"
@@ -86,7 +87,7 @@ const (
 	aFaultDivide
 	aStop
 	aFatal
-	numActions // the actions of the base families
+	numActions                  // the actions of the base families
 	aShowStop  = numActions     // templates: {{ v }} of a native.EnvStringer that calls env.Stop
 	aShowFatal = numActions + 1 // the same calling env.Fatal
 	aExtra     = numActions + 2 // first of the extra runtime faults (extraFaults)
@@ -203,7 +204,7 @@ func actionClass(a int) string {
 
 // layouts
 const (
-	lProgram = iota
+	lProgram        = iota
 	lTemplate       // frames: template body [+ macro M of the same file]
 	lTemplateImport // frames: template body + macro M of imp.html
 )
@@ -772,16 +773,16 @@ func observe(p *plan) (o observation) {
 	stopStr := envStringer{func(env native.Env) { env.Stop(stopErr) }}
 	fatalStr := envStringer{func(env native.Env) { env.Fatal(fatalV) }}
 	decls := native.Declarations{
-		"Mark":  func(s string) { marks = append(marks, s) },
-		"Stop":  func(env native.Env) { env.Stop(stopErr) },
-		"Fatal": func(env native.Env) { env.Fatal(fatalV) },
-		"Call":  func(f func()) { f() },
-		"Err":   &hostErrVar,
-		"S":     reflect.TypeOf(S{}),
+		"Mark":     func(s string) { marks = append(marks, s) },
+		"Stop":     func(env native.Env) { env.Stop(stopErr) },
+		"Fatal":    func(env native.Env) { env.Fatal(fatalV) },
+		"Call":     func(f func()) { f() },
+		"Err":      &hostErrVar,
+		"S":        reflect.TypeOf(S{}),
 		"StopStr":  &stopStr,
 		"FatalStr": &fatalStr,
-		"MyErr": reflect.TypeOf(MyErr{}),
-		"MyStr": reflect.TypeOf(MyStr{}),
+		"MyErr":    reflect.TypeOf(MyErr{}),
+		"MyStr":    reflect.TypeOf(MyStr{}),
 	}
 	files := scriggo.Files{}
 	for n, s := range p.files {
@@ -1318,8 +1319,75 @@ func shapeAt(f family, i uint64) shape {
 	return shape{layout: f.layout, frames: f.cfgs[d[2]], site: int(d[1]), action: al[d[0]]}
 }
 
+// nativeCallSpace: call form × failure kind for native callees (shared with
+// C05, package verif/gen/nativecalls): documented result kinds and the
+// direct-call twin.
+func nativeCallSpace() kit.Space {
+	cs := nc.Cases()
+	return kit.Space{
+		Name: "native-calls.outcome", Size: uint64(len(cs)),
+		Eval: func(i uint64) kit.Outcome {
+			c := cs[i]
+			if !c.Applicable() {
+				return kit.Outcome{OK: true, Class: "n/a combination"}
+			}
+			r := nc.Run(c)
+			src, _ := c.Source()
+			var b strings.Builder
+			b.WriteString(c.String() + "\n")
+			for n, s := range src {
+				fmt.Fprintf(&b, "--- %s\n%s", n, s)
+			}
+			if r.BuildErr != nil || r.BuildPanic != nil {
+				return kit.Outcome{Key: "harness|generated source does not build|native-calls", Detail: fmt.Sprintf("%s\n%v %v", b.String(), r.BuildErr, r.BuildPanic), Class: "fail", Nontrivial: true}
+			}
+			wantKind, wantLog := nc.Want(c)
+			fmt.Fprintf(&b, "expected (doc comments of Run, Env.Stop, Env.Fatal): result=%s log=%v\nobserved: %s", wantKind, wantLog, r.Summary())
+			fail := func(key string) kit.Outcome {
+				return kit.Outcome{Key: "outcome|" + key, Detail: b.String(), Class: "fail", Nontrivial: true}
+			}
+			if r.Kind == "host panic" {
+				switch {
+				case nc.IsHostRuntimeError(c.Kind, r.HostPanic):
+					// the native function's own runtime error (host code)
+				case c.Kind == nc.KCallbackPanics && fmt.Sprint(r.HostPanic) == "cb-boom\n":
+					return fail("host-panic(string: text of the interpreted panic chain) at " + kit.FirstRepoFrame(r.Stack))
+				case nc.EnvValueDefect(r.HostPanic):
+					return fail("host-panic(reflect.Set: native function with an Env parameter used as a function value) at " + kit.FirstRepoFrame(r.Stack))
+				default:
+					return fail("native callee: host-panic(" + kit.NormMsg(fmt.Sprintf("%T: %v", r.HostPanic, r.HostPanic)) + ") at " + kit.FirstRepoFrame(r.Stack))
+				}
+			}
+			if wantKind != "" {
+				if r.Kind != wantKind {
+					return fail("native callee: want=" + wantKind + " got=" + r.Kind + " | callee " + nc.KindNames[c.Kind])
+				}
+				if fmt.Sprint(r.Log) != fmt.Sprint(wantLog) {
+					return fail("native callee: result=" + wantKind + " but the program printed other lines (frame not intact or code ran after the end) | callee " + nc.KindNames[c.Kind])
+				}
+				if r.Kind == "*PanicError" && !r.MsgOK {
+					return fail("native callee: the message of the PanicError is not the value the native function panicked with")
+				}
+			}
+			if t := c.Twin(); t != c {
+				tr := nc.Run(t)
+				if tr.Summary() != r.Summary() {
+					b.WriteString("\ndirect-call twin: " + tr.Summary())
+					return fail("native callee: outcome differs from the direct-call twin | callee " + nc.KindNames[c.Kind])
+				}
+			}
+			cl := "native callee: " + r.Kind
+			if r.Kind == "host panic" {
+				cl = "native callee: host-code panic propagated"
+			}
+			return kit.Outcome{OK: true, Class: cl, Nontrivial: true}
+		},
+		Describe: func(i uint64) any { return cs[i].Describe() },
+	}
+}
+
 func spaces(tier string) []kit.Space {
-	var sps []kit.Space
+	sps := []kit.Space{nativeCallSpace()}
 	for _, f := range families(tier) {
 		f := f
 		size := kit.Product(uint64(len(f.actionList())), numSites, uint64(len(f.cfgs)))
@@ -1353,7 +1421,7 @@ func main() {
 	kit.Main(&kit.Check{
 		ID:    "C12",
 		Level: "model_checking",
-		Rule: "every (frame configuration × site × action) of the family: 1..3 frames (main/f1/f2, or template body + macro of the same or of an imported file), every frame with every list (bounded length) of 7 deferred-call kinds {marker closure, recover, new panic, recover then new panic, native Mark, native Stop, native Fatal}; 6 sites {body, deferred closure, closure, method, native callback, deferred call of the builtin/native itself}; 13 actions {panic of 8 value kinds, 3 runtime faults, Stop, Fatal}. Every case is evaluated under 4 aspects (outcome, chain termination, chain content, location). Non-trivial = the combination exists (faults have no deferred-direct form; templates have no methods) and, for the chain aspects, a *PanicError is involved",
+		Rule:  "every (frame configuration × site × action) of the family: 1..3 frames (main/f1/f2, or template body + macro of the same or of an imported file), every frame with every list (bounded length) of 7 deferred-call kinds {marker closure, recover, new panic, recover then new panic, native Mark, native Stop, native Fatal}; 6 sites {body, deferred closure, closure, method, native callback, deferred call of the builtin/native itself}; 13 actions {panic of 8 value kinds, 3 runtime faults, Stop, Fatal}. Every case is evaluated under 4 aspects (outcome, chain termination, chain content, location). Non-trivial = the combination exists (faults have no deferred-direct form; templates have no methods) and, for the chain aspects, a *PanicError is involved",
 		Assumptions: []string{
 			"expected behaviour = a 60-line model of Go defer/panic/recover restricted to this family (panics are raised only directly in deferred closures or at the site), validated against gc for every quick-tier program at development time (C12_GCCHECK)",
 			"a panic raised in a Scriggo closure called back from native code is expected to behave as in Go (propagates through the native frame to the interpreted callers), because Program.Run documents that an unrecovered panic is returned as *PanicError",
